@@ -181,7 +181,13 @@ fn force(
                         let lazy_lock = lazy.value.lock().unwrap();
                         match *lazy_lock {
                             Lazy_::Value(ref value) => {
-                                vm.current_context().push(value);
+                                // SAFETY The value stays rooted through the lazy value (an
+                                // evaluated lazy value is never overwritten)
+                                let value = unsafe { value.clone_unrooted() };
+                                // The cell must not be locked while the context gets locked: a
+                                // collecting thread holds the context and locks the cell to trace it
+                                drop(lazy_lock);
+                                vm.current_context().push(&value);
                                 RuntimeResult::Return(Pushed::default())
                             }
                             Lazy_::Failed(ref err) => RuntimeResult::Panic(err.clone().into()),
@@ -191,7 +197,13 @@ fn force(
                 ))
             }
             Lazy_::Value(ref value) => {
-                vm.current_context().push(value);
+                // SAFETY The value stays rooted through the lazy value (an evaluated lazy value is
+                // never overwritten)
+                let value = unsafe { value.clone_unrooted() };
+                // The cell must not be locked while the context gets locked: a collecting thread
+                // holds the context and locks the cell to trace it
+                drop(lazy_lock);
+                vm.current_context().push(&value);
                 Either::Left(future::ready(RuntimeResult::Return(Pushed::default())))
             }
             Lazy_::Failed(ref err) => Either::Left(future::ready(RuntimeResult::Panic(
